@@ -46,7 +46,11 @@ func gen(r *rand.Rand, thorough bool, i int) []string {
 			accts = append(accts, fmt.Sprintf("%d=%d", id, 100000*coin))
 		}
 	}
-	ops := []string{fmt.Sprintf("init %s %s %d %s %s", demeter, hexF(slash), spw.MinLockSeconds, spw.OrderString(), strings.Join(accts, ","))}
+	spMin := uint64(coin) // the repo's min_stake_per_delegate; 0 lets an unstaked provider earn (provider reward)
+	if r.Intn(3) == 0 {
+		spMin = 0
+	}
+	ops := []string{fmt.Sprintf("init %s %s %d %s %s %d", demeter, hexF(slash), spw.MinLockSeconds, spw.OrderString(), strings.Join(accts, ","), spMin)}
 
 	// providers
 	var ps []prov
@@ -100,6 +104,12 @@ func gen(r *rand.Rand, thorough bool, i int) []string {
 	if r.Intn(3) == 0 {
 		add("authorizer", 40, 60)
 	}
+	// some blobbers store data (their record then survives a kill / shut-down even without delegates)
+	for _, p := range ps {
+		if p.kind == "blobber" && r.Intn(3) == 0 {
+			ops = append(ops, fmt.Sprintf("setdata %d 1", p.id))
+		}
+	}
 	ops = append(ops, "dump")
 
 	stakers := []int{41, 42, 43, 44, 50, 51, 53, 30, 61, 62}
@@ -122,8 +132,13 @@ func gen(r *rand.Rand, thorough bool, i int) []string {
 		}
 		return stakers[r.Intn(len(stakers))]
 	}
-	// opening stakes so that most pools are non-empty
+	// opening stakes so that most pools are non-empty (one case in four starts with no delegates anywhere: providers
+	// disabled while nobody has staked)
+	noStake := r.Intn(4) == 0
 	for _, p := range ps {
+		if noStake {
+			break
+		}
 		for k := r.Intn(3); k > 0; k-- {
 			step(fmt.Sprintf("lock %s %d %d %d %d", p.kind, p.id, stakers[r.Intn(5)], values[r.Intn(3)], nows[0]))
 		}
@@ -164,8 +179,10 @@ func gen(r *rand.Rand, thorough bool, i int) []string {
 				c = p.wallet
 			}
 			step(fmt.Sprintf("collect %s %d %d", p.kind, p.id, c))
-		case x < 90:
+		case x < 89:
 			step("payfees")
+		case x < 90:
+			step(fmt.Sprintf("setdata %d %d", []int{30, 31, 32}[r.Intn(3)], r.Intn(2)))
 		case x < 94 && !crossed:
 			// a request that names a provider of another kind, or nobody (by a stranger or the owner for kill)
 			q := pick()
